@@ -55,6 +55,7 @@ FIXED = [
     "fixed: property=C18 ae4f4b2 poles were linked only to their nearest neighbours, leaving clusters of grid poles and wire relays as separate electric networks",
     "fixed: property=C18 52564f9 the pole grid was laid out before the layout from an entity-count estimate: about a third of the consumers of generated programs lay outside every supply area",
     "fixed: property=C04 75cac69 `m.write((m.read() != 6) : (m.read() + 3))`-style loops on one signal type: the colouring left the sum on the red network the hold gate is locked to and only logged the conflict (decider read m + m+3)",
+    "fixed: property=C09 5a19c8d a user-placed combinator lost its `direction` property in the export and sat off the tile grid (centre computed for the rotated footprint)",
     "fixed: property=C01 832242e `(c : k) && x` / `(c : k) || (d : j)` with constants other than 0/1 took the boolean shortcut (x*y, (x+y)>0) and yielded k or 0 instead of 1",
     "fixed: property=C01 7701d37 a comparison with an integer literal on the left (`3 < a`) was emitted as `signal-0 < a`",
 ]
